@@ -19,9 +19,9 @@ Proof.
   intros m' Hin. apply filter_In in Hin. destruct Hin as [Hin _]. eapply ascending_head_lt; eassumption.
 Qed.
 
-Lemma versions_i32_filter : forall f ms, versions_i32 ms = true -> versions_i32 (filter f ms) = true.
+Lemma versions_u32_filter : forall f ms, versions_u32 ms = true -> versions_u32 (filter f ms) = true.
 Proof.
-  intros f ms H. unfold versions_i32 in *. rewrite forallb_forall in *. intros m Hm.
+  intros f ms H. unfold versions_u32 in *. rewrite forallb_forall in *. intros m Hm.
   apply filter_In in Hm. apply H. apply Hm.
 Qed.
 
@@ -82,18 +82,24 @@ Lemma stmts_all_app : forall o a b, stmts_all o (a ++ b) = stmts_all o a ++ stmt
 Proof. intros. unfold stmts_all. rewrite map_app, concat_app. reflexivity. Qed.
 
 Theorem run_equals_fresh : forall o ms k,
-  ascending ms = true -> versions_i32 ms = true ->
+  ascending ms = true -> versions_u32 ms = true ->
   fst (run [] o ms (fst (run [] o (applied_upto k ms) fresh))) = fst (run [] o ms fresh).
 Proof.
   intros o ms k Ha Hi.
   assert (Hf : at_version 0 fresh = true) by reflexivity.
+  assert (Hnc : forall l, id_conflict l fresh = false).
+  { intros l. unfold id_conflict. simpl. induction l; [reflexivity|exact IHl]. }
   pose proof (ascending_filter (fun m => N.leb (m_version m) k) ms Ha) as HaA.
-  pose proof (versions_i32_filter (fun m => N.leb (m_version m) k) ms Hi) as HiA.
+  pose proof (versions_u32_filter (fun m => N.leb (m_version m) k) ms Hi) as HiA.
   fold (applied_upto k ms) in HaA, HiA.
-  destruct (run_from_k o (applied_upto k ms) 0 fresh HaA Hf) as [H1 _]. rewrite H1.
+  destruct (run_from_k o (applied_upto k ms) 0 fresh HaA Hf (Hnc _)) as [H1 _]. rewrite H1.
   pose proof (at_version_advanced o (applied_upto k ms) 0 fresh Hf HiA) as Hat.
-  destruct (run_from_k o ms _ _ Ha Hat) as [H2 _]. rewrite H2.
-  destruct (run_from_k o ms 0 fresh Ha Hf) as [H3 _]. rewrite H3.
+  assert (Hnc1 : id_conflict ms (advanced o (pending 0 (applied_upto k ms)) fresh) = false).
+  { apply no_conflict_advanced_sub; [exact Ha| |apply Hnc].
+    intros m' Hin. apply pending_lt in Hin. destruct Hin as [Hin _].
+    unfold applied_upto in Hin. apply filter_In in Hin. apply Hin. }
+  destruct (run_from_k o ms _ _ Ha Hat Hnc1) as [H2 _]. rewrite H2.
+  destruct (run_from_k o ms 0 fresh Ha Hf (Hnc _)) as [H3 _]. rewrite H3.
   rewrite <- (pending_two_hops k ms Ha).
   unfold advanced, bootstrap, db_rows, fresh; simpl.
   rewrite rows_of_app, stmts_all_app. reflexivity.
